@@ -422,7 +422,10 @@ def target_parse_data_dispatch():
                     mode["kind"] = kind
                     calls.clear()
                     path = f"/some/dir/spectrum{spelled}"
-                    out = ns["parse_data"](path, sheet="S")
+                    try:
+                        out = ns["parse_data"](path, sheet="S")
+                    except (UFF, ValueError, TypeError, KeyError) as ex:
+                        out = f"{type(ex).__name__}: {ex}"
                     n_cases += 1
                     ok = calls == [(want, path, {"sheet": "S"})] and isinstance(out, list) and all(isinstance(d, DS) and d.tag == want for d in out) and len(out) == (2 if kind == "list" else 1)
                     sess.check("post", [], z3.BoolVal(ok), 0, label=f"[file *{spelled}, reader returns a {kind}]read by {want}(path, **kwargs), once; its data sets are returned")
@@ -432,7 +435,11 @@ def target_parse_data_dispatch():
                 mode["kind"] = "list"
                 calls.clear()
                 path = f"/some/dir/spectrum{ext}"
-                out = ns["parse_data"](path, file_format=ff)
+                try:
+                    out = ns["parse_data"](path, file_format=ff)
+                except (UFF, ValueError, TypeError, KeyError) as ex:
+                    out = []
+                    calls.append(f"{type(ex).__name__}: {ex}")
                 n_cases += 1
                 sess.check("post", [], z3.BoolVal(calls == [(other, path, {})] and all(d.tag == other for d in out)), 0, label=f"[file *{ext}, file_format={ff!r}]the explicit format decides: read by {other}")
         for bad in (".xyz", "xyz"):
